@@ -204,6 +204,8 @@ let raw_index (tr : 'i fsev list) (i : int) : int =
 
 let split_ws (s : string) : string list = List.filter (fun x -> x <> "") (String.split_on_char ' ' s)
 
+let dump_phys_hook : (Obj.t -> unit) ref = ref (fun _ -> print_string "dumpphys n/a\n")
+
 let run (ops : 'i idx_ops) (dump_index : 'i -> unit) (check_inv : params -> 'i st -> bool option) (ic : in_channel) : unit =
   let params = ref (mk_params 0xFFFFFFFF (32 lsl 20) 0x3f000000 false) in
   let st : 'i st ref = ref { s_mem = None; s_disk = disk0; s_trace = [] } in
@@ -311,6 +313,7 @@ let run (ops : 'i idx_ops) (dump_index : 'i -> unit) (check_inv : params -> 'i s
          | Some false -> print_string "checkinv INVARIANT-FALSE\n"
          | None -> print_string "checkinv ok\n")
     | ["dumpindex"] -> (match !st.s_mem with Some m -> dump_index m.m_idx | None -> print_string "mem closed\n")
+    | ["dumpphys"] -> (match !st.s_mem with Some m -> !dump_phys_hook (Obj.repr m.m_idx) | None -> print_string "mem closed\n")
     | ["crash"; i; c] ->
         (* process crash inside the last state-changing command *)
         let i = int_of_string i and c = int_of_string c in
